@@ -29,6 +29,8 @@ func (verifDeps) ResolveType(pkg string, name string) (*TypeRef, error) {
 		return &TypeRef{Package: pkg, Name: name, File: "other/v1/foreign.proto", MessageRef: &MessageRef{Oneof: true}}, nil
 	case pkg == "other.v1" && name == "Colour":
 		return &TypeRef{Package: pkg, Name: name, File: "other/v1/colour.proto", EnumRef: &EnumRef{Prefix: "COLOUR_", ValMap: map[string]int32{"COLOUR_UNSPECIFIED": 0, "COLOUR_RED": 1, "COLOUR_BLUE": 2}}}, nil
+	case pkg == "deep.other.v1" && name == "Foreign":
+		return &TypeRef{Package: pkg, Name: name, File: "deep/other/v1/foreign.proto", MessageRef: &MessageRef{}}, nil
 	case pkg == "a.v1" && name == "Local":
 		return &TypeRef{Package: pkg, Name: name, File: "a/v1/local.j5s.proto", MessageRef: &MessageRef{}}, nil
 	}
@@ -435,6 +437,7 @@ func HarnessConvertEnum() {
 		eff = defaultPrefix
 	}
 	var opts []*schema_j5pb.Enum_Option
+	withInfo := ndBool("optionInfo")
 	if leadUnspecified {
 		opts = append(opts, &schema_j5pb.Enum_Option{Name: eff + "UNSPECIFIED", Number: 0})
 	}
@@ -444,6 +447,12 @@ func HarnessConvertEnum() {
 			nm = eff + nm
 		}
 		opts = append(opts, &schema_j5pb.Enum_Option{Name: nm, Number: int32(i + 1)})
+	}
+	if withInfo {
+		// every declared option (the explicit zero option too) carries info
+		for _, o := range opts {
+			o.Info = map[string]string{"colour": "grey"}
+		}
 	}
 	src := verifSourceFile(&sourcedef_j5pb.RootElement{Type: &sourcedef_j5pb.RootElement_Enum{Enum: &schema_j5pb.Enum{
 		Name: enumName, Prefix: prefix, Options: opts,
@@ -465,6 +474,15 @@ func HarnessConvertEnum() {
 		return
 	}
 	verifAssert(e.Value[0].GetNumber() == 0 && e.Value[0].GetName() == eff+"UNSPECIFIED", "zero-value-is-PREFIX_UNSPECIFIED")
+	for i, v := range e.Value {
+		declared := i > 0 || leadUnspecified
+		xt, _ := proto.GetExtension(v.Options, ext_j5pb.E_EnumValue).(*ext_j5pb.EnumValueOptions)
+		if withInfo && declared {
+			verifAssert(xt != nil && len(xt.Info) == 1 && xt.Info["colour"] == "grey", "declared-option-info-carried")
+		} else {
+			verifAssert(xt == nil || len(xt.Info) == 0, "no-info-invented")
+		}
+	}
 	for i := 0; i < k; i++ {
 		v := e.Value[i+1]
 		verifAssert(v.GetNumber() == int32(i+1), "option-number-is-position")
@@ -1351,6 +1369,10 @@ func HarnessConvertService() {
 func HarnessConvertTopic() {
 	kind := ndChoice("topicKind", 3) // publish, reqres, upsert
 	fields := []*schema_j5pb.ObjectProperty{{Name: "payload", Schema: verifField(fString)}}
+	noFields := ndBool("messageWithoutFields")
+	if noFields {
+		fields = nil // the message still gets its implicit leading field, where the topic kind has one
+	}
 	var tt *sourcedef_j5pb.TopicType
 	nMsgs := 1
 	switch kind {
@@ -1392,11 +1414,17 @@ func HarnessConvertTopic() {
 		verifAssert(m != nil && m.GetInputType() == message && m.GetOutputType() == ".google.protobuf.Empty", "topic-method-takes-NameMessage-returns-Empty")
 		msg := verifFindMessage(fd, message)
 		verifAssert(msg != nil, "topic-message-emitted")
-		if msg != nil && firstField != "" {
+		if msg != nil && firstField != "" && !noFields {
 			verifAssert(len(msg.Field) == 2 && msg.Field[0].GetName() == firstField && msg.Field[0].GetNumber() == 1 && msg.Field[1].GetName() == "payload" && msg.Field[1].GetNumber() == 2, "implicit-leading-metadata-field-then-declared")
 		}
-		if msg != nil && firstField == "" {
+		if msg != nil && firstField != "" && noFields {
+			verifAssert(len(msg.Field) == 1 && msg.Field[0].GetName() == firstField && msg.Field[0].GetNumber() == 1, "implicit-leading-field-also-without-declared-fields")
+		}
+		if msg != nil && firstField == "" && !noFields {
 			verifAssert(len(msg.Field) == 1 && msg.Field[0].GetNumber() == 1, "declared-fields-numbered-from-1")
+		}
+		if msg != nil && firstField == "" && noFields {
+			verifAssert(len(msg.Field) == 0, "no-fields-declared-none-emitted")
 		}
 		cfg, _ := proto.GetExtension(s.Options, messaging_j5pb.E_Service).(*messaging_j5pb.ServiceConfig)
 		verifAssert(cfg != nil, "messaging-annotation-present")
